@@ -4,9 +4,13 @@
 package statefulset
 
 import (
+	"reflect"
+
+	"k8s.io/apimachinery/pkg/watch"
 	"k8s.io/client-go/util/workqueue"
 
 	apps "github.com/pingcap/advanced-statefulset/client/apis/apps/v1"
+	"github.com/pingcap/advanced-statefulset/pkg/third_party/k8s"
 )
 
 // Test-only entry points, compiled only with the `verif` build tag. They add no behaviour: each
@@ -37,4 +41,23 @@ func (ssc *StatefulSetController) VerifSetQueue(q workqueue.RateLimitingInterfac
 // VerifGetPatch returns the revision data the controller records for set.
 func VerifGetPatch(set *apps.StatefulSet) ([]byte, error) {
 	return getPatch(set)
+}
+
+// VerifShutdown stops the goroutines NewStatefulSetController started (work queue, event broadcaster),
+// so that a harness can build a controller per test case and discard it afterwards.
+func (ssc *StatefulSetController) VerifShutdown() {
+	ssc.queue.ShutDown()
+	pc, ok := ssc.podControl.(k8s.RealPodControl)
+	if !ok || pc.Recorder == nil {
+		return
+	}
+	v := reflect.ValueOf(pc.Recorder)
+	if v.Kind() != reflect.Ptr || v.Elem().Kind() != reflect.Struct {
+		return
+	}
+	if f := v.Elem().FieldByName("Broadcaster"); f.IsValid() && f.CanInterface() {
+		if b, ok := f.Interface().(*watch.Broadcaster); ok && b != nil {
+			b.Shutdown()
+		}
+	}
 }
